@@ -86,7 +86,8 @@ var c02Table = map[string]triage{
 	`x/mint.BeginBlocker # err-ext:coll:x/mint/keeper.Keeper.Minter.Get`:                                                      {"accepted", "Minter written in InitGenesis (GENESIS-WRITES)"},
 	`x/mint.SetPreviousBlockTime # err-ext:coll:x/mint/keeper.Keeper.Minter.Get`:                                              {"accepted", "Minter written in InitGenesis (GENESIS-WRITES)"},
 	`(x/mint/keeper.Keeper).MintCoins # err-ext:iface:x/mint/types.BankKeeper.MintCoins`:                                      {"accepted", "module account has Minter permission (C03 MACC-PERM)"},
-	`(x/mint/keeper.Keeper).SendInflationaryRewards # err-ext:iface:x/mint/types.BankKeeper.InputOutputCoins`:                 {"accepted", "input = sum of outputs = amount just minted (C03 LIN-SPLIT)"},
+	`(x/oracle/keeper.Keeper).WeightedMedian # range:(cosmossdk.io/math.LegacyDec).TruncateInt64(loopvar)`:                    {"accepted", "the truncated quantity is the sum of the reporters' powers; a power is bonded stake / 10^6, so the sum is bounded by total supply / 10^6, far below 2^63 (C06 states the same bound)"},
+	`(x/mint/keeper.Keeper).SendInflationaryRewards # err-ext:iface:x/mint/types.BankKeeper.InputOutputCoins`:                 {"linked", "input = sum of outputs = amount just minted (C03 LIN-SPLIT); every output carries a positive amount and the call is skipped without outputs (OUTPUTS-POSITIVE) — x/bank rejects an output without coins, which a provision of 1-3 loya (block times 1-2 ms apart) used to produce (D19)"},
 	`(x/mint/types.Minter).CalculateBlockProvision # err-local:fmt.Errorf "current time %v cannot be before previous time %"`: {"accepted", "assumption: consensus block time is monotone"},
 
 	// ---- oracle EndBlock
@@ -153,6 +154,57 @@ func c02Links(r *Result) {
 		return f
 	}
 
+	// OUTPUTS-POSITIVE: x/bank rejects an output without coins; the mint split only sends positive parts
+	if sir := need("(x/mint/keeper.Keeper).SendInflationaryRewards"); sir != nil {
+		guardedAmounts := map[string]bool{}
+		ps := AnalyzePaths(sir, []Atom{
+			{Name: "positive", Cond: func(rel *Term) (bool, bool) {
+				if rel.Op == "<" && len(rel.Args) == 2 && rel.Args[0].Op == "const:0" {
+					guardedAmounts[(&linEval{}).Eval(rel.Args[1]).String()] = true
+					return true, true
+				}
+				return false, true
+			}},
+			{Name: "none", Cond: func(rel *Term) (bool, bool) {
+				return rel.Op == "==" && len(rel.Args) == 2 && strings.Contains(rel.Args[0].Op, "len") && rel.Args[1].Op == "const:0", true
+			}},
+		})
+		n := 0
+		for _, b := range sir.Blocks {
+			for _, in := range b.Instrs {
+				c, ok := in.(*ssa.Call)
+				if !ok {
+					continue
+				}
+				if bi, ok := c.Call.Value.(*ssa.Builtin); ok && bi.Name() == "append" && strings.Contains(c.Type().String(), "bank/types.Output") {
+					n++
+					bad := ps.Require(c, func(v map[string]bool) bool { return v["positive"] })
+					// the guarded quantity is the amount of this output
+					amt := ""
+					for _, el := range variadicElemValues(c.Call.Args[1]) {
+						el = stripIface(el)
+						if ld, ok := el.(*ssa.UnOp); ok {
+							el = ld.X
+						}
+						if al, ok := el.(*ssa.Alloc); ok {
+							if v := singleFieldStore(al, 1); v != nil {
+								amt = coinsAmount(v).String()
+							}
+						}
+					}
+					guarded := amt != "" && guardedAmounts[amt]
+					link(len(bad) == 0 && guarded, "OUTPUTS-POSITIVE", "(x/mint/keeper.Keeper).SendInflationaryRewards # an output is added only for a positive amount", P.Pos(c.Pos()), fmt.Sprintf("valuations %v ; output amount %s guarded: %v", statesStr(ps, c), clip(amt, 80), guarded))
+				}
+			}
+		}
+		link(n == 2, "OUTPUTS-POSITIVE", "(x/mint/keeper.Keeper).SendInflationaryRewards # two guarded outputs", P.Pos(sir.Pos()), fmt.Sprintf("%d", n))
+		for _, cs := range P.CallSitesIn(sir) {
+			if isBankCall(cs, "InputOutputCoins") {
+				bad := ps.Require(cs.Instr, func(v map[string]bool) bool { return !v["none"] })
+				link(len(bad) == 0 && len(ps.Matched["none"]) > 0, "OUTPUTS-POSITIVE", "(x/mint/keeper.Keeper).SendInflationaryRewards # InputOutputCoins is not called without outputs", P.Pos(cs.Pos()), fmt.Sprint(statesStr(ps, cs.Instr)))
+			}
+		}
+	}
 	// VALUE-NORMALISED: the two block-path parsers of a report value strip the 0x prefix like validation does
 	if wm := need("(x/oracle/keeper.Keeper).WeightedMedian"); wm != nil {
 		n := 0
